@@ -563,6 +563,7 @@ static void checkC14(Ctx& c, long idx, Rng& r) {
 static Mat33 pointInertia(double m, const Vec3& d) { return m * (Mat33(d.normSqr()) - d * ~d); }
 static void checkC15(Ctx& c, long idx, Rng& r) {
     Case k; GenOpts o;
+    if (idx % 3 == 0) o.pMasslessInterior = 0.5;   // massless connector bodies with several children (compound joints)
     if (!prepare(c, k, r, idx, false, Stage::Velocity, o, true)) return;
     const SimbodyMatterSubsystem& matter = k.m.matter; State& s = k.s; int nu = k.nu, nb = k.nb;
     Matrix M; matter.calcM(s, M);
